@@ -62,7 +62,11 @@ class C13(Check):
             tab = stratum in ('S-opname', 'S-all') and rng.random() < 0.35
             if tab:
                 libs = ('tab', 'lin')   # operators carrying a large array constant (cache keys must see all of it)
-            spec = models.gen_net(rng, n_nodes=rng.randint(1, 4), uniq=uniq, max_edges=4,
+            # a third of the models carry delayed edges; the delay values come from a small set so that different
+            # workflows (compiled at different step sizes) meet the same delay value
+            dl = (lambda r: {'delay': r.choice([0.004, 0.02, 0.1])} if r.random() < 0.5 else {}) \
+                if rng.random() < 0.33 else None
+            spec = models.gen_net(rng, n_nodes=rng.randint(1, 4), uniq=uniq, max_edges=4, delays=dl,
                                   libs=libs, hier=rng.random() < 0.15, build='python' if tab else None)
             for o in spec['ops'].values():
                 if o['lib'] == 'tab':
@@ -111,6 +115,7 @@ class C13(Check):
                 if kind == 'jac':
                     kw['vectorize'] = False
                 h = f'F{wid}_{j}'
+                kw['step_size'] = rng.choice([1e-3, 1e-3, 2e-3, 0.01])
                 ops.append({'wf': wid, 'op': 'compile', 'obj': M, 'api': api, 'kw': kw, 'handle': h,
                             'func_name': rng.choice(['vf', 'vf', f'f{wid}'])})
                 if rng.random() < 0.6:
